@@ -861,6 +861,10 @@ def gen_c11_e2e(tier, seed):
         if idx % 5 == 2 and f >= 1000:
             # a clock too coarse to see the sample (explicit sample size: nothing is clamped): readings b <= a give exactly 0
             d.update({"q": rng.choice([100, 1000, 10 ** 4]), "cbase": rng.choice([0, 1, 3]), "cstep": 0, "n": rng.choice([5, 9, 16]), "s": rng.choice([1, 2])})
+        if idx % 5 in (0, 4) and idx % 2 == 0:
+            # a counter that steps backwards between the two reads of a sample (a thread moved to a core whose counter lags): b < a is 0
+            d["regress"] = "%d,%d" % (rng.choice([1, 2, 3]), rng.choice([1, 40, 5000, 10 ** 9]))
+            d["n"] = rng.choice([4, 8])
         if idx % 5 == 4:
             # the OS-timer arm on the scripted source (1 tick = 1 ns), with spans up to and beyond 2^64 ps
             d.update({"tsc": 0, "vos": 1, "T": 1, "s": 1, "cbase": rng.choice([1000, 2 ** 40, 2 ** 54, 2 ** 55, 2 ** 60]), "cstep": rng.choice([0, 1]), "n": rng.choice([2, 3])})
